@@ -235,3 +235,72 @@ M('c07-twin-reset-helper', 'C07', 'silent',
         self.have_rcptto = None
 
     def _command_NOOP''', 1))
+
+# ---------------------------------------------------------------- C08
+IOF = 'slimta/smtp/io.py'
+AUTH = 'slimta/smtp/auth.py'
+M('c08-server-buffer-kept', 'C08', 'fire:R8.1',
+  (IOF, '''            self.socket = context.wrap_socket(self.socket, server_side=True)
+            # Anything buffered was received before encryption: discard it.
+            self.recv_buffer = b\'\'''',
+   '''            self.socket = context.wrap_socket(self.socket, server_side=True)''', 1))
+M('c08-client-buffer-kept', 'C08', 'fire:R8.1',
+  (IOF, '''                                              server_hostname=hostname)
+            # Anything buffered was received before encryption: discard it.
+            self.recv_buffer = b\'\'''',
+   '''                                              server_hostname=hostname)''', 1))
+M('c08-ehlo-survives-tls', 'C08', 'fire:R8.2',
+  (SRV, '''            self.ehlo_as = None
+            self.have_mailfrom = None''', '''            self.have_mailfrom = None''', 1))
+M('c08-starttls-still-offered', 'C08', 'fire:R8.2',
+  (SRV, '''            self.extensions.drop('STARTTLS')''', '''            pass''', 1))
+M('c08-auth-twice', 'C08', 'fire:R8.3',
+  (SRV, '''if not self.ehlo_as or self.authed or self.have_mailfrom:''',
+   '''if not self.ehlo_as or self.have_mailfrom:''', 1))
+M('c08-auth-in-transaction', 'C08', 'fire:R8.3',
+  (SRV, '''if not self.ehlo_as or self.authed or self.have_mailfrom:''',
+   '''if not self.ehlo_as or self.authed:''', 1))
+M('c08-auth-bare-crash', 'C08', 'fire:R8.4',
+  (SRV, '''        if not arg:
+            bad_arguments.send(self.io)
+            return
+        auth = self.extensions.getparam('AUTH')''',
+   '''        auth = self.extensions.getparam('AUTH')''', 1))
+M('c08-insecure-check-removed', 'C08', 'fire:R8.5',
+  (AUTH, '''            if insecure and not self.io.encrypted:
+                raise InsecureMechanismError()''', '', 1))
+M('c08-insecure-dead-attribute', 'C08', 'fire:R8.5',
+  (AUTH, '''            insecure = getattr(mechanism, 'insecure',
+                               mechanism.name in (b'PLAIN', b'LOGIN'))''',
+   '''            insecure = getattr(mechanism, 'insecure', False)''', 1))
+M('c08-insecure-login-forgotten', 'C08', 'fire:R8.5',
+  (AUTH, '''mechanism.name in (b'PLAIN', b'LOGIN'))''',
+   '''mechanism.name in (b'PLAIN',))''', 1))
+M('c08-session-auth-any-code', 'C08', 'fire:R8.6',
+  ('slimta/edge/smtp.py', '''        if reply.code == '235':
+            self.auth = (creds.authcid, creds.authzid)''',
+   '''        self.auth = (creds.authcid, creds.authzid)''', 1))
+M('c08-valueerror-arm-dropped', 'C08', 'fire:R8.7',
+  (SRV, '''        except ValueError:
+            bad_arguments.send(self.io)
+            return
+        except ServerAuthError as e:''', '''        except ServerAuthError as e:''', 1))
+M('c08-twin-guard-inverted-form', 'C08', 'silent',
+  (AUTH, '''            if insecure and not self.io.encrypted:
+                raise InsecureMechanismError()''',
+   '''            if insecure:
+                if self.io.encrypted:
+                    pass
+                else:
+                    raise InsecureMechanismError()''', 1))
+M('c08-twin-clear-before-return', 'C08', 'silent',
+  (IOF, '''            self.socket = context.wrap_socket(self.socket, server_side=True)
+            # Anything buffered was received before encryption: discard it.
+            self.recv_buffer = b\'\'
+            return True''', '''            self.socket = context.wrap_socket(self.socket, server_side=True)
+            self._drop_plaintext()
+            return True''', 1),
+  (IOF, '''    def buffered_recv(self):''', '''    def _drop_plaintext(self):
+        self.recv_buffer = b\'\'
+
+    def buffered_recv(self):''', 1))
